@@ -793,7 +793,9 @@ fn run_ds(case: &str, d: &Ds, scratch: &Path, drv: &mut Driver, rep: &mut Report
             // search; (3) the streams are equal except for the byte count of the last event `finish`
             // (same binary offset); (4) the slice search's count IS the offset of the first NUL of the
             // input and the reader's count is larger.
-            let convert_count = d.det == 2 && reader_strategy && !real_ml && spec.len() == got.len() && spec.len() >= 2 && {
+            // (experiment switch RGV_C02_CONVERT_COUNT_FIXED=1: class off, for a tree with
+            // /tmp/patches/c02-convert-byte-count.patch applied; unset, it changes nothing)
+            let convert_count = std::env::var("RGV_C02_CONVERT_COUNT_FIXED").is_err() && d.det == 2 && reader_strategy && !real_ml && spec.len() == got.len() && spec.len() >= 2 && {
                 let n = spec.len() - 1;
                 let f = |e: &str| -> Option<(u64, String)> {
                     let mut it = e.strip_prefix("finish ")?.splitn(2, ' ');
